@@ -395,7 +395,7 @@ func sortRules(l []*nsxRule, m map[string]*nsxGroup) {
 		gj := getGroup(ej, m)
 		if gi != nil {
 			if gj != nil {
-				return cmp.Compare(gi.Expression[0].IPAddresses[0], gj.Expression[0].IPAddresses[0])
+				return cmp.Compare(firstIP(gi), firstIP(gj))
 			}
 			return -1
 		}
@@ -461,6 +461,14 @@ func sortRules(l []*nsxRule, m map[string]*nsxGroup) {
 		}
 		return elementCmp(a.DestinationGroups[0], b.DestinationGroups[0])
 	})
+}
+
+// Group may be empty if previous run was interrupted.
+func firstIP(g *nsxGroup) string {
+	if l := g.Expression[0].IPAddresses; len(l) > 0 {
+		return l[0]
+	}
+	return ""
 }
 
 // Rename rules in b such that names are unique in respect to rules in a.
